@@ -125,6 +125,18 @@ def build_groups(run):
                             w = (k, next(wid), w)
                         roots.append(base); meta.append(("root-qualifier", "plain", len(roots)))
                         roots.append((q, w)); meta.append(("root-qualifier", "wrapped", len(roots) - 2))
+            # TWO qualifiers, separated by a NewType / a value alias (Python only rejects a qualifier directly inside a
+            # qualifier): Final[NewType('N', Final[T])], ClassVar[alias(Final[T])], Final[NewType(alias(ClassVar[T]))] ...
+            # (seeded change C11-r7m2: unwrap() peeled at most one qualifier)
+            for base in bases:
+                for q1 in ("final", "classvar"):
+                    for q2 in ("final", "classvar"):
+                        for chain in (("newtype",), ("alias",), ("newtype", "alias"), ("alias", "newtype")):
+                            w = (q2, base)
+                            for k in chain:
+                                w = (k, next(wid), w)
+                            roots.append(base); meta.append(("root-two-qualifiers", "plain", len(roots)))
+                            roots.append((q1, w)); meta.append(("root-two-qualifiers", "wrapped", len(roots) - 2))
         for _ in range(3):
             base = coregen.gen_ty(rng, env, 2, wrap=0, classes=classes)
             for tag, w in variants(rng, env, base, wid, classes):
